@@ -373,3 +373,9 @@ func QuotedSpec(s string) string {
 //@   loop 0 locals (sb *strings.Builder)
 //@   loop 0 invariant 0 <= i && i <= len(s) && sb.String() == QuotedPrefix(s, i)
 //@   loop 0 decreases len(s) - i
+
+// GhostListRoom: how many more levels of parenthesised lists the decoder
+// accepts (used by recursion measures of parsers in other packages).
+//
+//@ pure
+func GhostListRoom(dec *Decoder) int { return maxListDepth - dec.listDepth }
